@@ -4,7 +4,30 @@ import vlib
 from vlib import vh_to_file, trace_validate, workdir, Infra
 
 
-def huge(rep, pid, family):
+def available_gib():
+    """Memory this process may still use: MemAvailable, capped by the cgroup limit if there is one."""
+    avail = 0
+    try:
+        for line in open("/proc/meminfo"):
+            if line.startswith("MemAvailable:"):
+                avail = int(line.split()[1]) * 1024
+    except OSError:
+        return 0
+    for lim, cur in (("/sys/fs/cgroup/memory.max", "/sys/fs/cgroup/memory.current"), ("/sys/fs/cgroup/memory/memory.limit_in_bytes", "/sys/fs/cgroup/memory/memory.usage_in_bytes")):
+        try:
+            m = open(lim).read().strip()
+            if m != "max":
+                avail = min(avail, int(m) - int(open(cur).read().strip()))
+        except (OSError, ValueError):
+            pass
+    return avail / (1 << 30)
+
+
+def huge(rep, pid, family, need_gib=0):
+    if need_gib and available_gib() < need_gib:
+        # not an outcome: the instance needs more memory than this machine can give it right now
+        rep.add("huge:" + family, skipped="needs about %d GiB of memory, %.1f GiB available" % (need_gib // 3, available_gib()))
+        return
     wd = workdir(pid)
     outp = os.path.join(wd, "huge-%s.ndjson" % family)
     vh_to_file(["huge-run", family], outp, timeout=3000)
